@@ -165,7 +165,7 @@ def destruct(R, fns):
                     R.check(("destroy_contents", "!=", None) in g, "DESTRUCT", "iter-delete:%s-guard" % via[1], where(f, e), "only when destruction was requested")
                 elif name == "aws_hash_table_clear":
                     R.check(("entry->hash_code", "!=", None) in g, "DESTRUCT", "clear:%s-guard" % via[1], where(f, e), "only for occupied slots", "clear destroys empty slots: %s" % g)
-                R.check((f.show(f.d(e.node["fn"])["a"][0]) + "->" + via[1], "!=", None) in g or any(x[0].endswith(via[1]) and x[1] == "!=" for x in g), "DESTRUCT", "%s:%s-null-checked" % (name, via[1]), where(f, e), "destructor pointer checked")
+                R.check((f.show(RU.uncast(f, e.node["fn"])), "!=", None) in g or any(x[0].endswith(via[1]) and x[1] == "!=" for x in g), "DESTRUCT", "%s:%s-null-checked" % (name, via[1]), where(f, e), "destructor pointer checked")
     R.require(n >= 8, "only %d destructor call sites found (confirmed: 8)" % n)
     # remove: hand over XOR destroy, then unlink
     f = fns["aws_hash_table_remove"]
@@ -462,9 +462,6 @@ def iterator(R, P, fns):
                 if i is not None and i["k"] == "bin" and i["op"] == "==" and {f.show(i["a"][0]), f.show(i["a"][1])} == {"iter->slot", "iter->limit"}:
                     okd = True
     R.check(okd, "ITER", "done-is-equality", "%s()" % f.name, "done() tests slot == limit (slot may be SIZE_MAX after deleting slot 0)", "done() is no longer an equality test on slot and limit")
-    f = fns["s_get_next_element"]
-    loops = [f.show(b.cond) for b in f.blocks.values() if b.term == "for" and b.cond is not None]
-    R.check(loops == ["(i < limit)"], "ITER", "scan-below-limit", "%s()" % f.name, "the scan stops at the iterator's limit")
 
 
 def iter_park(R, P, fns):
@@ -488,6 +485,19 @@ def iter_park(R, P, fns):
         lm = [v for k, v in st.env.items() if k.endswith(")->limit")]
         if len(sl) != 1 or len(lm) != 1 or not (entails(st, sl[0] - lm[0]) and entails(st, lm[0] - sl[0])):
             ok, det = False, "slot = %s, limit = %s" % (sl, lm)
+    ready = P.enums.get("AWS_HASH_ITER_STATUS_READY_FOR_USE")
+    ok2, det2, n2 = True, "", 0
+    for st in sts.get(-1, []):
+        stv = [v for k, v in st.env.items() if k.endswith(")->status")]
+        if not (len(stv) == 1 and stv[0].is_const() and stv[0].cval() == ready):
+            continue
+        n2 += 1
+        sl = [v for k, v in st.env.items() if k.endswith(")->slot")]
+        lm = [v for k, v in st.env.items() if k.endswith(")->limit")]
+        if len(sl) != 1 or len(lm) != 1 or not entails(st, sl[0] - lm[0] + 1):
+            ok2, det2 = False, "slot = %s, limit = %s" % (sl, lm)
+    R.check(ok2 and n2 >= 1 and ready is not None, "ITER", "scan-below-limit", "s_get_next_element()", "status READY_FOR_USE is stored only with slot < limit: the scan stops at the iterator's limit (%d states)" % n2,
+            "the scan can yield a slot at or beyond the iterator's limit (%s): an entry a deletion shifted across the wrap point is visited twice" % det2)
     R.check(ok and n >= 1 and done is not None, "ITER", "exhausted-iterator-parked-at-limit", "s_get_next_element()", "status DONE is stored together with slot == limit (%d states)" % n,
             "an exhausted iterator is parked with %s: after a deletion has lowered the limit aws_hash_iter_done never becomes true and the loop keeps yielding a NULL element" % det)
 
